@@ -34,6 +34,7 @@ type c08PreCase struct {
 	Ops        []verifseen.Op         `json:"ops"`
 	HQSeen     []int                  `json:"hq_has_seen,omitempty"` // HQ facet: pool URLs crawl HQ has seen before
 	EmptyAs204 bool                   `json:"empty_as_204,omitempty"`
+	Order      int                    `json:"answer_order,omitempty"` // HQ facet: 0 as asked, 1 reversed, 2 sorted
 	FailOp     int                    `json:"hq_fails_during_op,omitempty"` // HQ facet: 1-based index of the op during which HQ answers 500 (0 = never)
 }
 
@@ -74,6 +75,7 @@ func genC08Pre(t *rapid.T, withHQ bool) c08PreCase {
 			}
 		}
 		c.EmptyAs204 = rapid.Bool().Draw(t, "204")
+		c.Order = rapid.IntRange(0, 2).Draw(t, "order")
 		if rapid.IntRange(0, 5).Draw(t, "fail") == 0 {
 			c.FailOp = rapid.IntRange(1, nOps).Draw(t, "failop")
 		}
@@ -353,7 +355,7 @@ func propC08PreHQ(t veriflib.TB, c c08PreCase) {
 	const facet = "C08/preprocess-hq"
 	c08PreConfig(true)
 	ns := fmt.Sprintf("q%d", c08PreNamespace.Add(1))
-	fake := &verifseen.FakeHQ{Project: "verif", Seen: map[string]bool{}, EmptyAs204: c.EmptyAs204}
+	fake := &verifseen.FakeHQ{Project: "verif", Seen: map[string]bool{}, EmptyAs204: c.EmptyAs204, Order: c.Order}
 	for _, i := range c.HQSeen {
 		l := c.Pool[i]
 		fake.Seen[verifseen.IdentityOf(l.Text(ns, verifgen.SeenCanonicalSpelling(l)))] = true
